@@ -37,6 +37,8 @@ DIMS = {
     'rstar': [1.0, 0.3],
     'distance': [1.0, 7.0],
     'prange': [[1e6, 1e-1], [1e7, 1e-4]],
+    # type of the wavenumber axis of the cross-section tables (= the native grid): float64 or an integer np.arange axis
+    'wndtype': ['float64', 'int64'],
     # abundance of the first active gas: absent everywhere, absent below and present aloft, present with a gap
     'h2o': [['const', 1e-4], ['const', 0.0], ['array', [0.0, 0.0, 2e-4, 2e-4]], ['array', [2e-4, 0.0, 0.0, 2e-4]]],
 }
@@ -55,8 +57,10 @@ def install(case):
     CIACache().add_cia(fx.TinyCIA('H2-He', WN, CIA_T, cia))
     sp = SPREAD[case['opmode']]
     if sp is None:
+        wd = case.get('wndtype', 'float64')
         for mol, t in tabs.items():
-            OpacityCache().add_opacity(fx.TinyOp(mol, WN, TG, PG, t))
+            OpacityCache().add_opacity(fx.TinyOp(mol, WN if wd == 'float64' else np.array(WN).astype(wd), TG, PG, t,
+                                                 keep_dtype=wd != 'float64'))
     else:
         tabs = dict((mol, t[..., None] * np.array(sp)[None, None, None, :]) for mol, t in tabs.items())
         fx.install_ktables(tabs, GW, WN, TG, PG)
